@@ -156,6 +156,10 @@ def boundary(t):
                     and abs(p[b]) != float("inf"):
                 x = p[b]
                 out += ([x - 1, x, x + 1] if k == "int" else [x - 1.0, x, x + 1.0, x - 0.2, x + 0.2])
+                if k == "float" and x != 0:
+                    # a hair's breadth either side: inside math.isclose's band around a pinned value,
+                    # yet strictly beyond a min / max of the same magnitude (bounds are exact)
+                    out += [x * (1 + 5e-10), x * (1 - 5e-10), x + 1e-12, x - 1e-12]
     if k == "str":
         p = M.props_of(t[1])
         alpha = p.get("alphabet")
@@ -226,6 +230,13 @@ class DictSub(dict):
     pass
 
 
+class Twin:
+    """Distinct, unequal objects that all print the same."""
+
+    def __repr__(self):
+        return "<twin>"
+
+
 class Opaque:
     def __repr__(self):
         return "<Opaque>"
@@ -256,6 +267,8 @@ def make_zoo():
         "\x00", "\ud800", "é" * 3, "a" * 1000, b"\xff",
         {None: 1}, {(1, 2): 1}, {frozenset([1]): 1}, {1.5: 1}, {b"k": 1}, {10 ** 30: 1},
         {E: 1}, {True: 1},
+        # distinct keys that render alike: two nan keys, two objects with one repr
+        {float("nan"): 1, float("nan"): 2}, register("twins", {Twin(): 1, Twin(): 2}),
         # an int beyond CPython's int -> decimal-string limit (4300 digits): its repr() raises
         register("int_5001_digits", 10 ** 5000),
         # several mutually unorderable keys / members at once
